@@ -178,8 +178,9 @@ def parse_cbmc(out):
     return res
 
 
-def cbmc_cmd(q, gb, tier, trace=False, scale=1):
-    cmd = ['cbmc', gb, '--function', 'harness'] + CBMC_FLAGS + ['--unwind', str(q.unwind * scale)]
+def cbmc_cmd(q, gb, tier, trace=False, scale=1, hunt=False):
+    flags = [f for f in CBMC_FLAGS if not (hunt and f == '--unwinding-assertions')] + (['--no-unwinding-assertions'] if hunt else [])
+    cmd = ['cbmc', gb, '--function', 'harness'] + flags + ['--unwind', str(2 if hunt else q.unwind * scale)]
     if q.unwindset:
         loops = list_loops(gb)
         us = []
@@ -210,7 +211,7 @@ def build_query_gb(q, tui, qd, witness=True):
     defs = dict(q.defs)
     if not witness:
         defs['VERIF_NO_WITNESS'] = None
-    rc, out, _, _ = sh(['goto-cc', '-DVERIF_CBMC', f'-I{TOOL}', f'-I{tui["dir"]}'] + defs_args(defs) + [h, tu_gb(tui, q.c_defs)] + rt_gb() + ['-o', gb], timeout=600)
+    rc, out, _, _ = sh(['goto-cc', '-DVERIF_CBMC', f'-I{TOOL}', f'-I{VERIF}', f'-I{tui["dir"]}'] + defs_args(defs) + [h, tu_gb(tui, q.c_defs)] + rt_gb() + ['-o', gb], timeout=600)
     if rc != 0:
         raise Inconclusive(f'goto-cc failed on harness {q.harness}:\n' + out[-4000:])
     return gb
@@ -222,7 +223,7 @@ def native_build(q, tui, qd, real, sanitize=False):
     exe = os.path.join(qd, ('real' if real else 'xlat') + ('_san' if sanitize else ''))
     san = ['-fsanitize=address,undefined', '-fno-sanitize-recover=undefined', '-fno-omit-frame-pointer', '-g'] if sanitize else []
     objs = []
-    common = ['-O1', '-w', '-DVERIF_NATIVE', f'-I{TOOL}', f'-I{tui["dir"]}'] + san
+    common = ['-O1', '-w', '-DVERIF_NATIVE', f'-I{TOOL}', f'-I{VERIF}', f'-I{tui["dir"]}'] + san
     for src in [h, os.path.join(TOOL, 'harness_native.c')]:
         o = os.path.join(qd, os.path.basename(src) + ('.r' if real else '.x') + ('s' if sanitize else '') + '.o')
         rc, out, _, _ = sh(['gcc', '-std=gnu11', '-c'] + common + defs_args(q.defs) + [src, '-o', o], timeout=300)
@@ -318,7 +319,7 @@ def run_query(q, tier, seed, prop_id):
         gb = build_query_gb(q, tui, qd)
         timeout = q.timeout or (120 if tier == 'quick' else 900)
         mem = q.mem_gb or (8 if tier == 'quick' else 24)
-        scale = 1
+        scale = 1; hunt = False
         for attempt in range(3):
             cmd = cbmc_cmd(q, gb, tier, scale=scale)
             rc, out, wall, rss = sh(cmd, timeout=timeout, mem_gb=mem)
@@ -326,12 +327,21 @@ def run_query(q, tier, seed, prop_id):
             p = parse_cbmc(out)
             r.update({'vars': p['vars'], 'clauses': p['clauses'], 'solver_s': p['solver_s'], 'symex_s': p['symex_s'], 'steps': p['steps'],
                       'wall_s': round(wall, 2), 'rss_kb': rss, 'no_body': p['nobody'], 'cmd': ' '.join(cmd[:3]) + ' ...'})
-            if rc == -9:
-                r['detail'] = f'timeout after {timeout}s'
-                return r
-            if p['verdict_line'] == 'NONE':
-                r['detail'] = 'cbmc produced no verdict (rc=%d): %s' % (rc, out[-600:])
-                return r
+            if rc == -9 or p['verdict_line'] == 'NONE':
+                r['detail'] = f'timeout after {timeout}s' if rc == -9 else 'cbmc produced no verdict (rc=%d): %s' % (rc, out[-300:])
+                # bug-hunting fallback (under-approximation: repo-side loops cut after 1 iteration, no unwinding assertions):
+                # can only turn "inconclusive" into a natively confirmed violation, never into "holds"
+                hunt = True
+                cmd = cbmc_cmd(q, gb, tier, hunt=True)
+                rc, out, wall, rss = sh(cmd, timeout=timeout, mem_gb=mem)
+                open(os.path.join(qd, 'cbmc_hunt.log'), 'w').write(' '.join(cmd) + '\n' + out)
+                p = parse_cbmc(out)
+                hf = {k: v for k, v in p['props'].items() if v[1] == 'FAILURE' and 'WITNESS:' not in v[0] and '.no-body.' not in k and 'ENCODING-BOUND' not in v[0]}
+                if rc == -9 or p['verdict_line'] == 'NONE' or not hf:
+                    return r
+                r['hunt'] = 'bug-hunting pass (unwind 2, no unwinding assertions) found failing checks'
+                fails = hf; real_fails = hf; unwind_fails = {}
+                break
             wit = [k for k, v in p['props'].items() if ('WITNESS:' in v[0])]
             fails = {k: v for k, v in p['props'].items() if v[1] == 'FAILURE' and not ('WITNESS:' in v[0])}
             unwind_fails = {k: v for k, v in fails.items() if 'unwinding assertion' in v[0] or 'recursion unwinding' in v[0]}
@@ -363,7 +373,7 @@ def run_query(q, tier, seed, prop_id):
         r['failed_properties'] = {k: v[0] for k, v in list(fails.items())[:8]}
         # counterexample: re-solve without witness, with trace, replay natively against the real code
         gbn = build_query_gb(q, tui, qd, witness=False)
-        cmd = cbmc_cmd(q, gbn, tier, trace=True, scale=scale)
+        cmd = cbmc_cmd(q, gbn, tier, trace=True, scale=scale, hunt=hunt)
         rc, out, wall, rss = sh(cmd, timeout=timeout * 2, mem_gb=mem)
         open(os.path.join(qd, 'cbmc_trace.log'), 'w').write(' '.join(cmd) + '\n' + out)
         nd = extract_nd(out)
@@ -441,7 +451,7 @@ def main():
             log(f'[{a.prop}] encoded {key[0]} {dict(key[1]) or ""}: {i["ir_lines"]} IR lines -> {i["c_lines"]} C lines in {i["gen_s"]}s')
     except Inconclusive as e:
         log(f'[{a.prop}] ENCODING FAILED: {e}')
-        results = [{'query': 'encoding', 'verdict': 'inconclusive', 'detail': str(e)[-2000:]}]
+        results = [{'query': 'encoding', 'harness': '', 'params': {}, 'verdict': 'inconclusive', 'detail': str(e)[-2000:]}]
         write_evidence(a, tier, seed, meta, results, t0, [], [])
         sys.exit(2)
     results = []
